@@ -175,11 +175,11 @@ def Wrapper.returnsBool : Wrapper → Bool
   | .deserializeCtx | .addJsonValue | .addField | .addScalarValue | .addList | .setFallbackMode => true
   | _ => false
 
-/-- The wrappers whose tail is `engine_call(..).is_ok()`: the engine's error value is dropped,
-nothing is written to `LAST_ERROR` (lib.rs:296, 304, 312, 581, 595, 606-608, 619-621, 632).
-Pinned to the extracted list in `Props/C20.lean`. -/
+/-- Wrappers whose tail is `engine_call(..).is_ok()` (the engine's error value dropped,
+nothing written to `LAST_ERROR`). There are none: every fallible setter goes through
+`report_result`, which writes the error text (the eight setters that used to end in `.is_ok()`
+were a genuine defect, fixed in /repo). Pinned to the extracted list in `Props/C20.lean`. -/
 def Wrapper.silentOnErr : Wrapper → Bool
-  | .addField | .addScalarValue | .addList => true
   | _ => false
 
 /-- Status in the wrapper's `Err(err)` arm of `catch_panic`.
